@@ -21,6 +21,7 @@ func init() {
 		c19Protocol(c)
 		c19LoopStop(c)
 		c19Pairing(c)
+		c19WhoClears(c)
 		timerNilSafe(c, "C19.4")
 	})
 }
@@ -543,4 +544,40 @@ func timerNilSafe(c *core.Ctx, R string) {
 		}
 	}
 	c.Need(R, "Timer method calls on holder loads", n, 2)
+}
+
+// c19WhoClears — C19.3b: a timer is cancelled only by the sites that own its life cycle.
+func c19WhoClears(c *core.Ctx) {
+	const R = "C19.3b"
+	c.Rule(R, "WHO(cancel): each timer holder is cancelled only at the sites of its life-cycle table — pingIntervalTimer: OnClose; pingTimeoutTimer: OnClose, clearTransport, resetPingTimeout (before re-arming), onPacket's PONG branch; upgradeTimeoutTimer: MaybeUpgrade.cleanup; checkIntervalTimer: cleanup and the probe branch before re-arming; a cancellation elsewhere silently stops heartbeats or noop releases")
+	table := map[string]map[string]bool{
+		"socket.pingIntervalTimer": {sockOnClose: true},
+		"socket.pingTimeoutTimer":  {sockOnClose: true, sockClearTr: true, "engine.(*socket).resetPingTimeout": true, sockOnPacket: true},
+		"upgradeTimeoutTimer":      {sockUpgrade + "$cleanup": true},
+		"checkIntervalTimer":       {sockUpgrade + "$cleanup": true, sockUpgrade + "$onPacket": true},
+	}
+	n := 0
+	for _, u := range c.P.Units {
+		if u.Pkg != c.P.Pkgs["engine"] {
+			continue
+		}
+		for _, cl := range u.CallsTo(clearTOKey, clearIVKey, timerStopKey) {
+			arg := cl.Arg(0)
+			if cl.Key == timerStopKey {
+				arg = cl.Recv
+			}
+			if arg == nil {
+				continue
+			}
+			h := timerHolder(u.Info(), arg)
+			allowed, known := table[h]
+			if !known {
+				continue
+			}
+			n++
+			c.Touch(u)
+			c.Check(R, keyf("%s/cancels(%s)", u.Key, h), cl.Pos(), allowed[u.Key], "cancellation site is in the holder's life-cycle table")
+		}
+	}
+	c.Need(R, "timer cancellation sites in engine", n, 8)
 }
